@@ -20,6 +20,9 @@ class Ctx:
         self.I = Interp(self.prog)
         self.folder: Folder = self.I.folder
         self._eea: dict[bool, EEA] = {}
+        from . import sleepbuf
+
+        sleepbuf.prepare(self)
 
     def eea(self, prune: bool = True) -> EEA:
         if prune not in self._eea:
@@ -119,7 +122,7 @@ def fkey(f: FuncInfo, node: ast.AST | str) -> str:
 
 def callee_names(ctx: Ctx, f: FuncInfo, call: ast.Call, V: str | None = None) -> set[str]:
     """Resolved callee names of a call site: external full names and repository function names."""
-    fr = Frame(ctx.I.make_callee(f, f.cls) if f.parent is None else Callee(f, f.cls, ()), V)
+    fr = Frame(Callee(f, f.cls, ()), V)  # the raw definition (not its decorator wrappers): the call site lives in f's own body
     out = set()
     for t in ctx.I.resolve_call(call, fr):
         if t.kind == "external" and t.fullname:
